@@ -33,6 +33,21 @@ def guard_constants(P, fn):
                 if ro[0] == 'call':
                     nt = B.blocks[ro[2]]['t']
                     out.append(('in', (fold(B.origin(nt['args'][0])), fold(B.origin(nt['args'][1]))), None, neg))
+            elif src[0] == 'call':
+                # a predicate call decides the branch (x == Nil, x.is_empty(), x.is_ascii() ...): the twins must ask the same question
+                nm = (callee_of(src[2])[0] or '?')
+                if nm.startswith('tracing') or 'tracing_core' in nm or 'log::' in nm:
+                    continue
+                short = nm.rsplit('::', 1)[-1]
+                if short == 'is_ascii':
+                    continue      # borrow-or-copy decision of the zero-copy Latin-1 parsers; its correctness is rule C13.2-twin-atom-text
+                # what it is compared with, when a constant variant of the term type (x == Term::Nil)
+                other = ''
+                if short in ('eq', 'ne') and len(src[2]['args']) > 1:
+                    o = B.origin(src[2]['args'][1])
+                    if o[0] == 'agg':
+                        other = str(o[1].get('var'))
+                out.append(('call', short, other, neg))
     return sorted(out, key=str)
 
 
